@@ -106,6 +106,7 @@ fn main() {
         "node_check" => auth::check_candidate(&args),
         "session_mirror" => auth::mirror(&args),
         "session_announce" => auth::announce(&args),
+        "session_child_exit" => auth::child_exit(&args),
         "elect" => cluster::elect(&args),
         "elect_search" => cluster::elect_search(&args),
         "frame_len" => cluster::frame_len(&args),
